@@ -54,6 +54,8 @@ pub proof fn lemma_after_step(l: nat, k: nat)
 
 /// C04: from a state with headroom and slack s = capacity - len, the next s fresh insertions never reach the
 /// growing arm (growth_left >= 1 before each), capacity never decreases, and when all slack is used the old table is gone
+#[verifier::spinoff_prover]
+#[verifier::rlimit(80)]
 pub proof fn lemma_headroom_suffices(s0: St, tr: Seq<St>)
     requires headroom(s0.g, s0.l), tr.len() >= 1, tr[0] == s0,
         forall|i: int| 0 <= i < tr.len() - 1 ==> step(#[trigger] tr[i], tr[i + 1]),
